@@ -232,7 +232,9 @@ impl Property for C12 {
     fn run(&self, case: &Case, cx: &mut Cx) -> Result<(), String> {
         let env = new_env();
         env.mock_all_auths();
-        env.ledger().set_sequence_number(case.start_seq as u32 + 1);
+        // (two thirds of the histories start near a live network's ledger sequence, one third near zero)
+        let seq_base: u32 = if case.start_seq % 3 == 0 { 0 } else { 51_000_000 };
+        env.ledger().set_sequence_number(seq_base + case.start_seq as u32 + 1);
         let mut accts: Vec<Address> = (0..N).map(|_| Address::generate(&env)).collect();
         // the last holder is the account-kind address carrying the same 32 bytes as the second (contract-kind) one:
         // two different holders whose balances, allowances and roles must never be confused
@@ -254,7 +256,7 @@ impl Property for C12 {
             minters: [false; N],
             owner: owner0,
             supply: 0,
-            seq: case.start_seq as u32 + 1,
+            seq: seq_base + case.start_seq as u32 + 1,
         };
         m.minters[owner0 as usize] = true;
         if let Some(i) = case.initial_minter {
